@@ -489,6 +489,17 @@ def conflict_suite(tier, seed):
             d["endpoints"].append(mk_ep("dup", "s", nw, rng, Alloc(rng, start=0x4000_0000)))
             d["connections"].append({"src": "dup", "dst": "router", "dst_idx": [0, 0], "dst_dir": "East"})
             out.append((d, {"topo": "conflict", "defect": "xy-same-coordinate", "expect": "reject"}))
+    # valid: routers of an array joined by explicit connections that name a direction at ONE end only (the link
+    # is directed at one router and undirected at the other, next to directed endpoint links)
+    for algo in ("XY", "ID", "SRC"):
+        for nw in (False, True):
+            for (key, dirname) in (("src_dir", "East"), ("dst_dir", "West"), ("src_dir", "South")):
+                d, _ = mesh(rng, 2, 1, algo, nw, force_dir=True)
+                d["routers"][0]["auto_connect"] = False
+                c = {"src": "router", "dst": "router", "src_idx": [0, 0], "dst_idx": [1, 0]}
+                c[key] = dirname
+                d["connections"].append(c)
+                out.append((d, {"topo": "one-sided-dir", "key": key, "dir": dirname}))
     return out
 
 
